@@ -1496,6 +1496,8 @@ fn generate_type_impl(
                 read_write: bool,
                 context: &mut GenerateContext,
             ) -> Result<ast::Type, GenerateError> {
+                // Modifiers like unorm / snorm do not change the component type of the texture
+                let ty = context.module.type_registry.remove_modifier(ty);
                 let component_type = match context.module.type_registry.extract_scalar(ty) {
                     Some(scalar) => match scalar {
                         ir::ScalarType::Float16
